@@ -340,7 +340,17 @@ func c09Recursion(depth int) *Prog {
 				L: &E{K: "call", Fn: "fib", Ty: TInt, NRes: 1, Args: []*E{{K: "bin", Ty: TInt, Op: "-", L: n, R: lit(TInt, 1)}}},
 				R: &E{K: "call", Fn: "fib", Ty: TInt, NRes: 1, Args: []*E{{K: "bin", Ty: TInt, Op: "-", L: n, R: lit(TInt, 2)}}}}}},
 		}})
+	// narrow(n, b, s): every level receives an untyped constant for a uint8 parameter and nil for a slice
+	// parameter, and has a local of its own; b + 100 wraps only if b really is a uint8
+	bq, sq := v("b", TUint8), v("s", SliceOf(TInt))
+	p.Funcs = append(p.Funcs, &Func{Name: "narrow", Params: []string{"n", "b", "s"}, PTypes: []*Ty{TInt, TUint8, SliceOf(TInt)}, Results: []*Ty{TInt},
+		Body: []*S{
+			dcl("loc", &E{K: "conv", Ty: TInt, X: bin("+", TUint8, bq, lit(TUint8, 100))}),
+			{K: "if", Cond: cmp("==", n, lit(TInt, 0)), Then: []*S{ret(bin("+", TInt, v("loc", TInt), lenOf(sq)))}},
+			ret(bin("+", TInt, &E{K: "call", Fn: "narrow", Ty: TInt, NRes: 1, Args: []*E{bin("-", TInt, n, lit(TInt, 1)), lit(TUint8, 200), {K: "zero", Ty: SliceOf(TInt)}}}, v("loc", TInt))),
+		}})
 	p.Funcs = append(p.Funcs, &Func{Name: "Main", Body: []*S{
+		pr(sS("narrow"), &E{K: "call", Fn: "narrow", Ty: TInt, NRes: 1, Args: []*E{lit(TInt, int64(depth)), lit(TUint8, 200), {K: "zero", Ty: SliceOf(TInt)}}}),
 		{K: "decl", Names: []string{"a", "b"}, Exprs: []*E{{K: "call", Fn: "down", NRes: 2, Args: []*E{lit(TInt, int64(depth)), lit(TInt, 0), {K: "str", Ty: TString, S: "t"}}}}},
 		{K: "print", Ln: true, Exprs: []*E{{K: "str", Ty: TString, S: "down"}, v("a", TInt), v("b", TString)}},
 		{K: "print", Ln: true, Exprs: []*E{{K: "str", Ty: TString, S: "fib"}, {K: "call", Fn: "fib", Ty: TInt, NRes: 1, Args: []*E{lit(TInt, 9)}}}},
